@@ -14,7 +14,7 @@ def build(ctx):
 def run(ctx):
     exe = build(ctx)["h_c18"]
     th = ctx.tier == "thorough"
-    ctx.fan(exe, "c18", 20000 if th else 1200, timeout=180, leaks=True)
+    ctx.fan(exe, "c18", 20000 if th else 1200, timeout=180, leaks=True, closed_stdin_every=4)
     s = ctx.stats
     ctx.assumptions += ["histories are well-formed: iterators are destroyed before the object they came from, mergers before their readers, writers/sorters before their pool",
                         "after a failing merge callback inside a sorter chunk the history only destroys the sorter (iterating it afterwards is a different defect, outside C18)",
